@@ -23,6 +23,8 @@ type c06Case struct {
 	Unit string `json:"unit,omitempty"`
 	N    int    `json:"n,omitempty"`
 	Tail string `json:"tail,omitempty"`
+	// EOFWithData: the transport hands out the last bytes together with io.EOF
+	EOFWithData bool `json:"eof_with_data,omitempty"`
 }
 
 func (c c06Case) bytes() []byte {
@@ -30,6 +32,13 @@ func (c c06Case) bytes() []byte {
 		return append(bytes.Repeat([]byte(c.Unit), c.N), c.Tail...)
 	}
 	return c.Input
+}
+
+func boolByte(b bool) byte {
+	if b {
+		return 1
+	}
+	return 0
 }
 
 func panicClass(rec any) string {
@@ -54,6 +63,7 @@ func panicClass(rec any) string {
 func evalC06(c c06Case) (fl *Failure) {
 	data := c.bytes()
 	r := resp.NewChunkReader(data, nil)
+	r.EOFWithData = c.EOFWithData
 	r.Limit = 1000000 + 1000*len(data)
 	defer func() {
 		if rec := recover(); rec != nil {
@@ -75,6 +85,21 @@ func evalC06(c c06Case) (fl *Failure) {
 		}
 	}
 	return failf("c06|no-progress", "parser returned more values than the %d-byte input has bytes", len(data))
+}
+
+// evalC06Long: a long stream of small valid values through one parser must not panic or exceed the read bound.
+func evalC06Long(c c02Long) *Failure {
+	f := evalC02Long(c)
+	if f == nil {
+		return nil
+	}
+	switch {
+	case strings.HasSuffix(f.Key, "|panic"):
+		return failf("c06|long|panic", "%s", f.Detail)
+	case strings.HasSuffix(f.Key, "|steps"):
+		return failf("c06|long|steps", "%s", f.Detail)
+	}
+	return nil
 }
 
 // hazardous reports whether the input declares a size that exceeds what the
@@ -233,7 +258,10 @@ func bytesOf(b byte, n int) []byte {
 	return out
 }
 
-func init() { register("c06.input", evalC06) }
+func init() {
+	register("c06.input", evalC06)
+	register("c06.long", evalC06Long)
+}
 
 func TestC06(t *testing.T) {
 	h := newHarness(t, "C06", "byte strings up to 1MiB: structure-aware mutations of valid RESP streams (truncate, splice, flip, insert, delete, duplicate, "+
@@ -307,7 +335,7 @@ func TestC06(t *testing.T) {
 		if len(data) > 1<<20 {
 			data = data[:1<<20]
 		}
-		c := c06Case{Input: data}
+		c := c06Case{Input: data, EOFWithData: rapid.IntRange(0, 3).Draw(rt, "eofwithdata") == 0}
 		nt, cl := classify(data)
 		if hazardous(data) {
 			// throttle: only a fraction of the declared-size bombs are run in the loop (the fixed list covers the constants)
@@ -333,21 +361,43 @@ func TestC06(t *testing.T) {
 		}
 		data := v.Bytes()
 		cls := "large-valid"
-		if rapid.IntRange(0, 2).Draw(rt, "damage") == 0 {
+		switch rapid.IntRange(0, 3).Draw(rt, "damage") {
+		case 0:
 			data = mutate(rt, data, resp.Cmd("GET", "k").Bytes())
 			cls = "large-mutated"
+		case 1:
+			// a bulk string of a large declared length whose payload stops early (or lacks only its CRLF)
+			n := rapid.SampledFrom([]int{65536, 131072, 131073, 180000, 262144, 300000}).Draw(rt, "declared")
+			have := rapid.IntRange(n/2, n+1).Draw(rt, "have")
+			data = append([]byte("$"+strconv.Itoa(n)+"\r\n"), bytesOf('x', have)...)
+			cls = "large-truncated"
 		}
 		if len(data) > 1<<20 {
 			data = data[:1<<20]
 		}
-		c := c06Case{Input: data}
+		c := c06Case{Input: data, EOFWithData: rapid.Bool().Draw(rt, "eofwithdata")}
 		nt, cl := classify(data)
-		h.Col.Case(nt || cls == "large-valid", data, append(cl, cls)...)
+		h.Col.Case(nt || cls == "large-valid", append(append([]byte{}, data...), byte(len(cls)), boolByte(c.EOFWithData)), append(cl, cls)...)
 		if hazardous(data) {
 			h.Fail(rt, "c06.input", c, viaChild(c))
 			return
 		}
 		h.Fail(rt, "c06.input", c, evalC06(c))
+	})
+
+	// long-lived parsers: many small valid values through one parser (state accumulated over a stream); only panics and the
+	// read bound are judged here, exact values are C02's business
+	h.Rapid("long-streams", h.N(30, 800), func(rt *rapid.T) {
+		c := c02Long{Pattern: rapid.SampledFrom([]string{"bulks", "commands"}).Draw(rt, "pattern"), Chunk: rapid.SampledFrom([]int{0, 1460, 65536}).Draw(rt, "chunk")}
+		for i, k := 0, rapid.IntRange(2, 7).Draw(rt, "nsizes"); i < k; i++ {
+			c.Sizes = append(c.Sizes, rapid.SampledFrom([]int{0, 1, 1, 2, 3, 5, 8, 12, 13, 40, 100, 254, 255, 256, 257}).Draw(rt, "size"))
+		}
+		c.N = rapid.SampledFrom([]int{22000, 70000, 150000, 400000}).Draw(rt, "n")
+		c.Seed = rapid.Uint32Range(1, 1<<31).Draw(rt, "seed")
+		h.Col.Case(true, []byte("long "+c.String()), "long-stream")
+		if f := evalC02Long(c); f != nil && (strings.HasSuffix(f.Key, "|panic") || strings.HasSuffix(f.Key, "|steps")) {
+			h.Fail(rt, "c06.long", c, evalC06Long(c))
+		}
 	})
 
 	h.Rapid("nesting", h.N(100, 2000), func(rt *rapid.T) {
